@@ -16,7 +16,7 @@ PROPERTY = 'C11'
 RULE = ('Exhaustive: every ordered pair and triple of the 13 binary operators in every tree shape over variable leaves; for '
         'pairs additionally every unary (+ - not, also stacked), `is T` (all scalar types and T[]), postfix [i] / .length / '
         'call / array-literal decoration on every operand position, and ?? at the top; Hypothesis: random trees to depth 6 '
-        'over all operators, postfix forms, calls, array literals and literals in every lexical form. Oracles: (i) round '
+        'over all operators, postfix forms, calls, array literals and literals in every lexical form, and unparenthesised runs of 8-160 operators of one precedence level. Oracles: (i) round '
         'trip tree -> print with minimal parentheses -> hidc parse -> same tree (both through the expression rule and '
         'inside a whole program); (ii) the independent precedence-climbing parser ref/expr.py yields the same tree from the '
         'same text; (iii) printing with full parentheses gives the same tree, and omitting any one necessary pair gives a '
@@ -276,8 +276,32 @@ def rand_tree(draw, depth):
     return Paren(draw(rand_tree(depth - 1)))
 
 
+LEVELS = [['or'], ['and'], ['==', '!=', '<', '<=', '>', '>='], ['+', '-'], ['*', '/', '%']]
+
+
+@st.composite
+def long_run(draw):
+    """A run of 8..160 binary operators of one precedence level without parentheses (left spine), operators drawn
+    from the level, operands variables / literals / an occasional tighter-binding sub-term."""
+    level = LEVELS[draw(st.integers(0, len(LEVELS) - 1))]
+    n = draw(st.sampled_from([8, 20, 40, 62, 63, 64, 65, 66, 90, 128, 129, 160]))
+    def operand():
+        k = draw(st.integers(0, 9))
+        if k < 6:
+            return Var('abcd'[draw(st.integers(0, 3))])
+        if k < 8:
+            return Lit('int', draw(st.integers(0, 9)), None)
+        if k == 8:
+            return Un('-', Var('a'))
+        return Index(Var('t'), Lit('int', 1, None))
+    e = operand()
+    for _ in range(n):
+        e = Bin(level[draw(st.integers(0, len(level) - 1))], e, operand())
+    return e
+
+
 def shards(tier):
-    return [('enum', k, 12) for k in range(12)] + [('rand', k, 4) for k in range(4)]
+    return [('enum', k, 12) for k in range(12)] + [('rand', k, 4) for k in range(4)] + [('runs', 0, 1)]
 
 
 def run_shard(desc, seed, tier):
@@ -303,8 +327,16 @@ def run_shard(desc, seed, tier):
 
     def chk(t):
         if stats.evaluations % 300 == 0:
-            stats.sample({'kind': 'random', 'text': join(expr_tokens(t, 'min'))})
+            stats.sample({'kind': 'random', 'text': join(expr_tokens(t, 'min'))[:400]})
         return check_tree(stats, t)
+
+    if kind == 'runs':
+        def chk_run(t):
+            stats.cls('long_runs')
+            return chk(t)
+        search(long_run(), chk_run, seed=derive_seed(seed, 'C11', 'runs'), max_examples=250 if tier == 'quick' else 3000,
+               stats=stats, to_case=lambda v, m: {'kind': 'tree', 'tree': hast.to_json(v), 'message': m[:3000], 'text': join(expr_tokens(v, 'min'))})
+        return stats
 
     search(rand_tree(6), chk, seed=derive_seed(seed, 'C11', part), max_examples=1500 if tier == 'quick' else 20000,
            stats=stats, to_case=lambda v, m: {'kind': 'tree', 'tree': hast.to_json(v), 'message': m, 'text': join(expr_tokens(v, 'min'))})
